@@ -76,6 +76,15 @@ class Contract:
     def extra_axioms(self, c): return []
     def cfg_assumptions(self, c, cfg): return []
 
+    # ---- native side (replay of counterexamples, bounded stand-in); oracle = bounded/specinterp.py, never algopy
+    def sample_x0(self, name, rng): return round(rng.uniform(0.3, 0.9) * 16) / 16
+    def native_init(self, name, arr, cfgname): pass
+    def native_scalars(self, cfgname, rng): return {}
+    def oracle(self, inp, scal, cfgname): raise NotImplementedError
+    def out_key(self, cfgname, name='out'):
+        cfg = self.cfgs[cfgname]
+        return 'ret' if (name in cfg and cfg[name] is None) else name
+
     # ---- helper used by both sides
     def _frame_params(self, cfg):
         al = self.cfgs[cfg].get('alias', {})
@@ -170,6 +179,7 @@ def generate(contract, cfgname, registry, repo, D=None):
     c0 = mk()
     st.assume += list(contract.requires(c0)) + list(contract.cfg_assumptions(c0, cfgname)) + list(contract.extra_axioms(c0))
     for d in (range(D) if D is not None else (0,)): st.assume += list(contract.spec_instances(c0, z3.IntVal(d)))
+    st.pre = pre; st.names = names; st.ex = ex
     ret = ex.block(fn.body)
     retval = ret[1] if ret is not None else None
     # postconditions
